@@ -17,13 +17,14 @@ Reference (written from the property text, never from the code):
   * needs compose backwards through the pipeline (need_{e1;e2}(k) = need_e1(need_e2(k)));
   * only a Slice can know that its output is complete before its input ends (selectors and nested sequences are
     opaque to the element that runs them).  itertools.islice's documented behaviour of reading max(start, stop)
-    values when it is asked for more than it has, and the documented "reads the whole flow" of a negative start, are
+    values when it is asked for more than it has, and one value of slack for a negative Slice whose result is decided
+    by a finite prefix (Slice(-a, b) is empty as soon as a + b values exist; the tree notices it one pull later), are
     allowed as upper bounds (the lower bound is the semantic one), so every expectation is an interval
     lo <= (pulled, end probed) <= hi; for the k-th result of every pipeline of the scopes lo == hi except behind such
     an exhausted Slice.
 Reading decisions: the property speaks about the state after the k-th result; the step "the consumer asks for one more
-and there is none" must terminate whenever that is decidable from a finite prefix of a non-negative Slice, and may not
-read beyond the bound above.  Termination of a negative-start Slice on an infinite input is not demanded.
+and there is none" must terminate whenever a finite prefix seen by a Slice decides it (also on an infinite input), and
+may not read beyond the bound above.
 Weak-reference liveness of the input values is used for the two "holds / keeps alive" clauses: at most bufsize input
 values alive after every result of a Split (the processed previous block may still be referenced while the next one is
 being read: not counted against it), at most max|negative index| input values alive at every pull and after every
@@ -528,13 +529,18 @@ def det_table(d, I, inf):
     else:
         # only a Slice can know that its output is complete before its input ends (a selector or a nested sequence is
         # opaque).  tight: as soon as list slicing gives the same for every continuation; loose: a non-negative Slice
-        # may read up to its stop (documented islice behaviour), a negative one may read the whole flow (documented)
+        # may read up to max(start, stop) (documented islice behaviour), a negative one may read one value more
         is_slice = d[0] == "slice"
         nonneg = is_slice and kind_of(d) == "Slice.run"
         # itertools.islice documents that it reads max(start, stop) values when it is exhausted
         nonneg_stop = None
         if nonneg and slice(*d[1]).stop is not None:
             nonneg_stop = max(slice(*d[1]).start or 0, slice(*d[1]).stop)
+        neg_decided = None
+        if is_slice and not nonneg:
+            sl = slice(*d[1])
+            if sl.start is not None and sl.start < 0 and sl.stop is not None and sl.stop >= 0:
+                neg_decided = sl.stop - sl.start
         last = None
         for p in range(n + 1):
             pre = I[:p]
@@ -543,7 +549,14 @@ def det_table(d, I, inf):
             cnt.append(c)
             complete = is_slice and all(len(r) == c for r in res)
             tight.append(complete)
-            loose.append(complete and nonneg and (nonneg_stop is None or p >= nonneg_stop))
+            if nonneg:
+                loose.append(complete and (nonneg_stop is None or p >= nonneg_stop))
+            elif neg_decided is not None:
+                # Slice(-a, b), b >= 0, is empty as soon as a + b values exist; one value of slack: the arrival of the
+                # value that completes the deciding prefix may be noticed one pull later
+                loose.append(complete and p >= neg_decided + 1)
+            else:
+                loose.append(complete)
             last = res[0]
         if inf:
             outs = model(d).run(I + F1)[:cnt[n]]
@@ -922,7 +935,12 @@ def slice_neg_case(args, n):
     finite = list(range(n if n is not None else M_INF))
     expected = finite[slice(*args)] if n is not None else None
     lagging = stop is not None and stop < 0 and (start is None or start >= 0)
-    if n is None and not lagging:
+    # Slice(-a, b) (a > 0, b >= 0), or a negative stop at or before a negative start: the result is empty as soon as
+    # the flow has a + b values (resp. at once), whatever follows -- the shortest prefix that determines it
+    decided = None
+    if start is not None and start < 0 and stop is not None:
+        decided = (stop - start) if stop >= 0 else (0 if stop <= start else None)
+    if n is None and not lagging and decided is None:
         return bad          # a negative start needs the end of the flow: nothing to observe on an infinite input
     src = LiveSrc(n, track=True)
     it = Slice(*args).run(src)
@@ -966,7 +984,13 @@ def slice_neg_case(args, n):
             break
     if expected is not None and got != expected:
         bad.append(("results-differ", "results %r, list slicing gives %r" % (got, expected)))
-    if n is None and got != [(start or 0) + j * step for j in range(len(got))]:
+    if decided is not None and (n is None or n >= decided):
+        if got:
+            bad.append(("results-differ", "results %r, list slicing gives [] for every flow of %d or more values" % (got, decided)))
+        elif src.pulled > decided + 1:
+            bad.append(("exhaustion-overpull", "%d values pulled although the first %d decide that there is no result "
+                        "(one value of slack allowed)" % (src.pulled, decided)))
+    elif n is None and got != [(start or 0) + j * step for j in range(len(got))]:
         bad.append(("results-differ", "results %r on the infinite input" % (got,)))
     return bad
 
